@@ -1,6 +1,8 @@
 package c18
 
 import (
+	"flag"
+	"os"
 	"testing"
 
 	oabi "github.com/google/gce-tcb-verifier/ovmf/abi"
@@ -8,6 +10,15 @@ import (
 
 // Native fuzz targets (thorough tier, see verif.json). They apply the same byte-string oracle (iv)
 // as the rapid checks; ev.Violation keeps quiet for keys listed as known findings.
+
+// seedsOnlyWhenFuzzing: the seed corpus repeats what the rapid checks already decide, so it runs only
+// under -fuzz (coordinator and workers get -test.fuzz) or when the driver replays a crasher
+// (VERIF_FUZZ=1); in an ordinary run the targets are skipped.
+func seedsOnlyWhenFuzzing(t *testing.T) {
+	if f := flag.Lookup("test.fuzz"); os.Getenv("VERIF_FUZZ") == "" && (f == nil || f.Value.String() == "") {
+		t.Skip("fuzz target: runs under -fuzz or VERIF_FUZZ=1")
+	}
+}
 
 func fuzzModels() (mLog, *mSP) {
 	sp := &mSP{PMID: 11129, PMStr: "Google", PModel: "M", PVer: "1", FMStr: "F", FMID: 54494, FVer: "2.0", RLT: 3, RL: []byte{1, 2, 3, 4}, PCLT: 0}
@@ -29,7 +40,8 @@ func FuzzEventLog(f *testing.F) {
 	f.Add(full[:len(full)-4])
 	f.Add(c.ref(mLog{}).b)
 	f.Fuzz(func(t *testing.T, b []byte) {
-		if len(b) > 1<<16 {
+		seedsOnlyWhenFuzzing(t)
+		if len(b) > 1<<15 {
 			return
 		}
 		c.checkBytes(t, b)
@@ -44,7 +56,8 @@ func FuzzSP800155(f *testing.F) {
 	f.Add(append(append([]byte(nil), e.b...), 0, 0, 0))
 	f.Add(e.b[:len(e.b)-2])
 	f.Fuzz(func(t *testing.T, b []byte) {
-		if len(b) > 1<<16 {
+		seedsOnlyWhenFuzzing(t)
+		if len(b) > 1<<15 {
 			return
 		}
 		checkSPBytes(t, b)
@@ -59,6 +72,7 @@ func FuzzTDXMetadata(f *testing.F) {
 	f.Add(b)
 	f.Add(b[:40])
 	f.Fuzz(func(t *testing.T, b []byte) {
+		seedsOnlyWhenFuzzing(t)
 		if len(b) > 1<<18 {
 			return
 		}
